@@ -167,7 +167,11 @@ fn w_common() -> Vec<(K, u32)> {
 pub(crate) fn profile_for(id: &str) -> Profile {
     let p = Profile::base().w(&w_common());
     match id {
-        "C01" => p.w(&[(K::Backpressure, 4), (K::Privmsg, 22), (K::Notice, 9), (K::Kick, 6), (K::Nick, 7), (K::Part, 7), (K::ModeChan, 10), (K::Eof, 2), (K::Reset, 2), (K::HalfOpen, 1)]),
+        "C01" => {
+            let mut p = p.clone();
+            p.chan_pool = 8;
+            p.w(&[(K::Backpressure, 4), (K::Privmsg, 22), (K::Notice, 9), (K::Kick, 6), (K::Nick, 7), (K::Part, 7), (K::ModeChan, 10), (K::Eof, 2), (K::Reset, 2), (K::HalfOpen, 1)])
+        }
         "C04" => p.w(&[(K::Names, 12), (K::Who, 9), (K::Whois, 9), (K::Join, 16), (K::JoinMulti, 5), (K::Part, 9), (K::Kick, 7), (K::Nick, 7), (K::Quit, 2), (K::Eof, 2), (K::Reset, 2), (K::EofMidLine, 1)]),
         "C07" => p.w(&[(K::Join, 26), (K::JoinMulti, 8), (K::ModeChan, 16), (K::Invite, 8), (K::Part, 8), (K::Nick, 4), (K::Names, 5), (K::Kick, 3)]),
         "C08" => p.w(&[(K::ModeChan, 30), (K::ModeQuery, 8), (K::ModeList, 4), (K::Names, 5), (K::Who, 3), (K::Join, 12), (K::Privmsg, 6), (K::Topic, 4), (K::Kick, 4), (K::Invite, 3)]),
